@@ -79,7 +79,7 @@ type priv struct {
 	Split  bool   `json:"split"`
 	Mixed  bool   `json:"mixed"` // gas limits of one class produced different projections
 	proj   string // canonical projection of the branch (not stored)
-	Ntx    int64  `json:"ntx"`   // transactions executed (a CALL transaction's nonce is bumped by the ante handler, which keeper-level execution skips)
+	Ntx    int64  `json:"ntx"` // transactions executed (a CALL transaction's nonce is bumped by the ante handler, which keeper-level execution skips)
 }
 
 type Adapter struct {
